@@ -267,6 +267,90 @@ func runVClockMerge(c *core.Ctx) {
 			good = false
 		}
 	}
+	// what Merge returns: the accumulator, or - in the trivial cases - one operand where the other is known to be empty
+	var accObj types.Object
+	ast.Inspect(fn.Body(), func(m ast.Node) bool {
+		as, ok := m.(*ast.AssignStmt)
+		if !ok || len(as.Lhs) != 1 || len(as.Rhs) != 1 || as.Tok != token.DEFINE || accObj != nil {
+			return true
+		}
+		if sel, ok := an.Unparen(as.Rhs[0]).(*ast.SelectorExpr); ok {
+			if o := rootOf(sel); o != nil && o == base {
+				if _, isMap := info.TypeOf(as.Rhs[0]).(*types.Pointer); isMap {
+					accObj = info.Defs[as.Lhs[0].(*ast.Ident)]
+				}
+			}
+		}
+		return true
+	})
+	g := e.Graph(fn)
+	var swapAtoms []ast.Node
+	for _, a := range g.FindAtoms(func(a ast.Node) bool {
+		as, ok := a.(*ast.AssignStmt)
+		return ok && len(as.Lhs) == 2 && len(as.Rhs) == 2
+	}) {
+		swapAtoms = append(swapAtoms, a)
+	}
+	nRet, okRet := 0, true
+	badRet := ""
+	for _, r := range g.FindAtoms(func(a ast.Node) bool { _, ok := a.(*ast.ReturnStmt); return ok }) {
+		rs := r.(*ast.ReturnStmt)
+		if len(rs.Results) != 1 {
+			continue
+		}
+		nRet++
+		res := an.Unparen(rs.Results[0])
+		if cl, ok := res.(*ast.CompositeLit); ok {
+			fine := false
+			for _, el := range cl.Elts {
+				v := el
+				if kv, ok := el.(*ast.KeyValueExpr); ok {
+					v = kv.Value
+				}
+				if accObj != nil && an.ObjOf(info, v) == accObj {
+					fine = true
+				}
+			}
+			if !fine {
+				okRet, badRet = false, types.ExprString(res)
+			}
+			continue
+		}
+		o := an.ObjOf(info, res)
+		if o == nil || origin[o] == nil {
+			okRet, badRet = false, types.ExprString(res)
+			continue
+		}
+		// an operand: only where the other operand's clock is nil, and before any exchange of the aliases
+		fine := false
+		for _, blk := range g.CFG.Blocks {
+			cd, _ := g.Cond(blk)
+			if cd == nil {
+				continue
+			}
+			isT, nonNil := nilTestOn(g, info, cd, func(x ast.Expr) bool {
+				sel, ok := an.Unparen(x).(*ast.SelectorExpr)
+				if !ok {
+					return false
+				}
+				ro := rootOf(sel)
+				return ro != nil && origin[ro] != nil && origin[ro] != origin[o]
+			})
+			if isT && g.GuardedBy(r, cd, !nonNil) {
+				fine = true
+			}
+		}
+		for _, sw := range swapAtoms {
+			if g.Search(an.Query{From: sw, Target: func(y ast.Node) bool { return y == r }}).Found {
+				fine = false
+			}
+		}
+		if !fine {
+			okRet, badRet = false, types.ExprString(res)
+		}
+	}
+	c.Check(okRet && nRet > 0 && accObj != nil, "VClock.Merge:returns-the-merged-clock", fn.Pos(), "every return hands back the accumulator, or an operand where the other one is empty",
+		"VClock.Merge can return "+badRet+" instead of the accumulated clock: after the size-based exchange of the operands that is not the merge result, so a reader's clock does not cover the writer's (the trace shows an effect before its cause)")
 	c.Check(good, "VClock.Merge:folds-one-operand-into-the-other", fn.Pos(), "the accumulator and the iterated clock are the two distinct operands (possibly exchanged together)",
 		"VClock.Merge does not fold one operand into the other: after the size-based swap the accumulator and the iterated clock can be the same operand, so the other operand's entries are lost and the reader's clock no longer dominates the writer's")
 }
